@@ -39,6 +39,8 @@
 //!   freeze      after every prefix of a base schedule (`--schedule`, or round-robin + `--runs` PCT
 //!               schedules; `--sample m` points per base) every in-flight call runs alone: SOLO lines,
 //!               `HFAIL solo budget` beyond `--budget B` steps
+//! Scenario groups: `--scenario all` = the ungrouped scenarios of the `--api`; `--scenario online-race` = the group of the
+//! change_tree(Online) races (`--list --scenario online-race` lists it, lines end in `group=online-race`).
 //! `--shard i/n` partitions the schedules of a mode (DFS subtrees / run indices) for parallel runs.
 //! Scenarios: `--scenario name,name|all` (`--list`), `--scenario-file f` (NAME/INIT/TREES|FRAMES/CLASSING/PRE/CALL
 //! lines, or a transcript block).  `putlast <order>` frees the block of the thread's latest get.
@@ -581,6 +583,8 @@ struct Scenario {
     cfg: UCfg,
     /// the threads use the upper API
     upper: bool,
+    /// scenarios of a named group are not part of `--scenario all`; `--scenario <group>` selects them
+    group: &'static str,
 }
 
 fn builtin() -> Vec<Scenario> {
@@ -592,7 +596,7 @@ fn builtin() -> Vec<Scenario> {
     let rows_h = ROWS; // rows per huge frame
     let v = RefCell::new(Vec::<Scenario>::new());
     let add_frames = |name: &str, alloc_all: bool, frames: usize, pre: Vec<CallSpec>, threads: Vec<Vec<CallSpec>>| {
-        v.borrow_mut().push(Scenario { name: name.into(), alloc_all, frames, pre, threads, cfg: UCfg::lower_only(), upper: false });
+        v.borrow_mut().push(Scenario { name: name.into(), alloc_all, frames, pre, threads, cfg: UCfg::lower_only(), upper: false, group: "" });
     };
     let add = |name: &str, alloc_all: bool, trees: usize, pre: Vec<CallSpec>, threads: Vec<Vec<CallSpec>>| {
         add_frames(name, alloc_all, trees * tf, pre, threads)
@@ -783,6 +787,7 @@ fn scenario_from_file(path: &str) -> Scenario {
         threads: vec![],
         cfg: UCfg::lower_only(),
         upper: false,
+        group: "",
     };
     let call_len = |k: &str| match k {
         "uget" | "uput" => 5,
@@ -882,7 +887,7 @@ fn builtin_upper() -> Vec<Scenario> {
     let online = |i: usize| UChange { id: Some(i), mclass: None, mfree: 0, cclass: None, op: 1 };
     let mut v: Vec<Scenario> = Vec::new();
     let mut add = |name: &str, cfg: UCfg, alloc_all: bool, trees: usize, pre: Vec<CallSpec>, threads: Vec<Vec<CallSpec>>| {
-        v.push(Scenario { name: name.into(), alloc_all, frames: trees * tf, pre, threads, cfg, upper: true });
+        v.push(Scenario { name: name.into(), alloc_all, frames: trees * tf, pre, threads, cfg, upper: true, group: "" });
     };
     // --- gets racing on one slot / different slots / without a slot
     add("u-get0-get0-slot", s1(), false, 2, vec![], vec![vec![g(0, 0, Some(0))], vec![g(0, 0, Some(0))]]);
@@ -1094,6 +1099,7 @@ fn builtin_upper() -> Vec<Scenario> {
         threads: vec![vec![ga(2 * tf + 3, 0, 0, None), ga(2 * tf + 64, 6, 0, None)], vec![g(0, 0, Some(0))]],
         cfg: s1(),
         upper: true,
+        group: "",
     });
     v.push(Scenario {
         name: "u-partial-exhaust".into(),
@@ -1103,10 +1109,11 @@ fn builtin_upper() -> Vec<Scenario> {
         threads: vec![vec![g(0, 0, Some(0))], vec![g(0, 0, None)]],
         cfg: s1(),
         upper: true,
+        group: "",
     });
     // --- three threads
     let mut add = |name: &str, cfg: UCfg, alloc_all: bool, trees: usize, pre: Vec<CallSpec>, threads: Vec<Vec<CallSpec>>| {
-        v.push(Scenario { name: name.into(), alloc_all, frames: trees * tf, pre, threads, cfg, upper: true });
+        v.push(Scenario { name: name.into(), alloc_all, frames: trees * tf, pre, threads, cfg, upper: true, group: "" });
     };
     add("u-mix3-get-get-drain", s1(), false, 2, vec![g(0, 0, Some(0))], vec![vec![g(0, 0, Some(0))], vec![g(0, 1, Some(0))], vec![UDrain]]);
     add(
@@ -1125,6 +1132,26 @@ fn builtin_upper() -> Vec<Scenario> {
         vec![],
         vec![vec![g(0, 0, Some(0)), pl(0, 0, Some(0))], vec![g(0, 0, Some(1))], vec![g(3, 1, Some(0))]],
     );
+    // ---------------------------------------------------------------------------------------------------------------
+    // group `online-race` (NOT part of `--scenario all`): change_tree(Online) on a tree whose counter is 0 copies the
+    // lower allocator's free count of the tree into the counter while another call is between its lower operation and
+    // its counter update
+    let mut addg = |name: &str, alloc_all: bool, pre: Vec<CallSpec>, threads: Vec<Vec<CallSpec>>| {
+        v.push(Scenario { name: name.into(), alloc_all, frames: 2 * tf, pre, threads, cfg: s1(), upper: true, group: "online-race" });
+    };
+    // everything is allocated (counters 0): a free of one frame of tree 0 vs online(0)
+    addg("u-online-vs-put", true, vec![], vec![vec![UPut { frame: 0, order: 0, class: 0, local: None }], vec![online(0)]]);
+    // tree 0 is taken offline while one frame of it is allocated; that frame is freed vs online(0)
+    addg(
+        "u-online-vs-put-offline",
+        false,
+        vec![ga(0, 0, 0, None), UChange { id: Some(0), mclass: None, mfree: 0, cclass: None, op: 2 }],
+        vec![vec![pp(0, 0, 0, 0, None)], vec![online(0)]],
+    );
+    // a tree-order get without slot takes the counter of tree 0 to 0; online(0) restores it before the lower get
+    addg("u-online-vs-get-noslot", false, vec![], vec![vec![ga(0, to, 0, None)], vec![online(0)]]);
+    addg("u-online-vs-get0-noslot", false, vec![ga(0, to - 1, 0, None), ga(tf / 2, to - 2, 0, None), ga(tf / 2 + tf / 4, to - 2, 0, None)],
+         vec![vec![UPutPre { idx: 2, off: 0, order: to - 2, class: 0, local: None }, g(to - 2, 0, None)], vec![online(0)]]);
     v
 }
 
@@ -2120,14 +2147,17 @@ fn main() {
     };
     let all: Vec<Scenario> = builtin();
     if args.flag("list") {
-        for s in all.iter().filter(|s| s.upper == upper) {
+        // `--list` shows the scenarios of `--scenario all`; `--list --scenario <group>` the ones of a group
+        let grp = args.get("scenario").filter(|g| *g != "all").unwrap_or("");
+        for s in all.iter().filter(|s| if grp.is_empty() { s.upper == upper && s.group.is_empty() } else { s.group == grp }) {
             println!(
-                "{} threads={} init={} frames={}{}",
+                "{} threads={} init={} frames={}{}{}",
                 s.name,
                 s.threads.len(),
                 if s.alloc_all { "alloc" } else { "free" },
                 s.frames,
-                if s.upper { format!(" api=upper {}", s.cfg.text()) } else { String::new() }
+                if s.upper { format!(" api=upper {}", s.cfg.text()) } else { String::new() },
+                if s.group.is_empty() { String::new() } else { format!(" group={}", s.group) }
             );
         }
         return;
@@ -2139,9 +2169,13 @@ fn main() {
         scns.push(scenario_from_file(f));
     }
     match args.get("scenario") {
-        Some("all") => scns.extend(all.iter().filter(|s| s.upper == upper).cloned()),
+        Some("all") => scns.extend(all.iter().filter(|s| s.upper == upper && s.group.is_empty()).cloned()),
         Some(list) => {
             for n in list.split(',') {
+                if all.iter().any(|s| !s.group.is_empty() && s.group == n) {
+                    scns.extend(all.iter().filter(|s| s.group == n).cloned());
+                    continue;
+                }
                 match all.iter().find(|s| s.name == n) {
                     Some(s) => scns.push(s.clone()),
                     None => {
